@@ -4,13 +4,13 @@
      StartHunt / StopHunt / Close                  spoof.go, arp.go:62-70
      spoofLoop                                     spoof.go: one iteration is THREE events, cut at the points
                                                    where the goroutine holds no lock:
-         Lookup i   pass the select (ticker / closeChan) or start; Lock; huntList[addr.MAC]; Unlock
-         Check i    read h.closed and decide: return silently / send the restoring request and return /
-                    send the forged announcement and go on
+         Lookup i   pass the select (ticker / closeChan) or start; Lock; huntList[addr.MAC]; closed := h.closed;
+                    Unlock; a closed handler ends the loop here
+         Check i    decide on the local copies: send the restoring request and return / send the forged
+                    announcement and go on (no shared read: since /repo 161661f h.closed is read under the lock)
          Send i     the WriteTo of the decided frame (may fail), then select or return
        so that StartHunt, StopHunt, Close, received packets and other loops interleave BETWEEN lookup,
-       decision and send.  (Check reads h.closed twice, "!hunting || h.closed" and "!h.closed"; a Close
-       between the two reads gives the same result as a Close just before Check, so one event suffices.)
+       decision and send.
      ProcessPacket                                 arp.go: RxArp (decoded, valid packet) and RxRaw (any
                                                    EtherType and payload bytes: PayloadID test, ARP.IsValid,
                                                    field decoding with Go's slice-bound panics).  The request
@@ -215,13 +215,18 @@ Definition lookup (s : state) (i : nat) : state * list frame :=
   match nth_error (loops s) i with
   | Some lp =>
       match lpc lp with
-      | PTop | PWait => (set_loops s (set_pc i (PLooked (hunt_find (amac (laddr lp)) (hunt s))) (loops s)), [])
+      | PTop | PWait =>
+          (* "Lock; targetAddr, hunting := huntList[addr.MAC]; closed := h.closed; Unlock" (/repo 161661f: h.closed is
+             read inside the lock section): a closed handler ends the loop right here, silently *)
+          let p := if closed s then PDone else PLooked (hunt_find (amac (laddr lp)) (hunt s)) in
+          (set_loops s (set_pc i p (loops s)), [])
       | _ => (s, [])        (* not at this point of the program: nothing happens *)
       end
   | None => (s, [])
   end.
 
-(* "if !hunting || h.closed { if !h.closed { RequestRaw(restore) }; return }; AnnounceTo(targetAddr.MAC, routerIP)" up to the write *)
+(* "if !hunting || closed { if !closed { RequestRaw(restore) }; return }; AnnounceTo(targetAddr.MAC, routerIP)" up to the
+   write, on the LOCAL copies taken under the lock: no shared state is read here any more *)
 Definition check (c : cfg) (s : state) (i : nat) : state * list frame :=
   match nth_error (loops s) i with
   | Some lp =>
@@ -229,8 +234,8 @@ Definition check (c : cfg) (s : state) (i : nat) : state * list frame :=
       | PLooked found =>
           let p :=
             match found with
-            | Some target => if closed s then PDone else PSend (announce c (amac target)) true
-            | None => if closed s then PDone else PSend (restore c (amac (laddr lp))) false
+            | Some target => PSend (announce c (amac target)) true
+            | None => PSend (restore c (amac (laddr lp))) false
             end in
           (set_loops s (set_pc i p (loops s)), [])
       | _ => (s, [])
